@@ -2,8 +2,10 @@ package lssim
 
 import (
 	"bytes"
+	"encoding/binary"
 	"fmt"
 	"io"
+	"runtime"
 	"runtime/debug"
 	"strings"
 	"time"
@@ -51,6 +53,19 @@ func hostileBlob(t *Tape, valid []byte) (blob []byte, kind string) {
 		return GzipBytes(pb), "gzip-ok-protobuf-flipped"
 	case 4:
 		return GzipBytes(bytes.Repeat([]byte{0}, 1<<uint(10+t.Choose("h-bomb", 12)))), "gzip-zeros"
+	case 5:
+		// a valid deflate stream whose gzip trailer (CRC32, ISIZE) lies:
+		// the declared uncompressed size is under the sender's control
+		b := append([]byte(nil), valid...)
+		if len(b) < 12 {
+			return valid, "valid"
+		}
+		sizes := []uint32{0, 1, 1 << 20, 1 << 30, 1<<31 - 1, 1 << 31, 1<<32 - 1}
+		binary.LittleEndian.PutUint32(b[len(b)-4:], sizes[t.Choose("h-isize", len(sizes))])
+		if t.Choose("h-crc", 2) == 1 {
+			b[len(b)-8] ^= 0xff
+		}
+		return b, "gzip-forged-trailer"
 	default:
 		return GzipBytes(adversarialPB(t)), "adversarial-protobuf"
 	}
@@ -161,6 +176,14 @@ func decodeFully(blob []byte) (ok bool, panicMsg string) {
 	return true, ""
 }
 
+// Allocation bound for decoding one blob: factor x input + slack.
+const (
+	memFactor = 8000
+	memSlack  = 8 << 20
+)
+
+var maxAllocRatio int
+
 func runHostileSim(env *RunEnv) {
 	sim, t := env.Sim, env.Tape
 	var viol []Violation
@@ -169,7 +192,22 @@ func runHostileSim(env *RunEnv) {
 	decoded, rejected := 0, 0
 	for i := 0; i < n && len(viol) == 0; i++ {
 		blob, kind := hostileBlob(t, valid)
+		var m0, m1 runtime.MemStats
+		runtime.ReadMemStats(&m0)
 		ok, p := decodeFully(blob)
+		runtime.ReadMemStats(&m1)
+		// "in ... memory proportional to the input": deflate expands at
+		// most 1032:1 and the decoder may copy while it grows its buffer;
+		// everything allocated while decoding is counted.
+		if alloc, limit := m1.TotalAlloc-m0.TotalAlloc, uint64(memFactor*len(blob)+memSlack); alloc > limit && p == "" {
+			viol = append(viol, Violation{"C08", "memory-proportional", "allocation-not-proportional-to-input",
+				fmt.Sprintf("decoding a %s blob of %d bytes allocated %d bytes (more than %d x the input + %d)", kind, len(blob), alloc, memFactor, memSlack)})
+			sim.Logf("VIOLATION C08 %s", viol[0].Msg)
+			break
+		}
+		if alloc := int(m1.TotalAlloc - m0.TotalAlloc); len(blob) > 0 && alloc/len(blob) > maxAllocRatio {
+			maxAllocRatio = alloc / len(blob)
+		}
 		if p != "" {
 			sig := "decoder-panic@" + p[strings.LastIndex(p, "@ ")+2:]
 			viol = append(viol, Violation{"C08", "no-crash", sig, fmt.Sprintf("decoding a %s blob of %d bytes (%x...) panicked: %s", kind, len(blob), blob[:min(len(blob), 24)], p)})
@@ -185,6 +223,7 @@ func runHostileSim(env *RunEnv) {
 	}
 	env.Res.Violations = viol
 	env.Res.Counts = map[string]int{"blobs": n, "decoded": decoded, "rejected": rejected}
+	sim.Probe(fmt.Sprintf("hostile-max-alloc-ratio<=%d", (maxAllocRatio/500+1)*500))
 	env.Res.Nontrivial = rejected > 0
 }
 
